@@ -499,6 +499,11 @@ def call(I, fr, name, fname, k, args, depth):
         if o.vi == 0:
             return o
         return some(call_closure(I, args[1], [o.fields[0]], depth))
+    if name.endswith("option::Option::<T>::and_then"):
+        o = args[0]
+        if o.vi == 0:
+            return o
+        return call_closure(I, args[1], [o.fields[0]], depth)
     if name.endswith("option::Option::<T>::is_some_and"):
         o = args[0]
         if o.vi == 0:
